@@ -128,6 +128,8 @@ def parseEvent (line : String) : Option (Nat × Gw.Event) :=
       else if kind == "mq" then (parseMq rest).map fun p => (tt, Gw.Event.mq p)
       else if kind == "mqraw" then some (tt, Gw.Event.mqGarbage)
       else if kind == "mqeof" then some (tt, Gw.Event.mqEof)
+      -- a broker that stops reading: only in cases marked `nomodel=1` (the blocked write is not modelled)
+      else if kind == "mqstall" then some (tt, Gw.Event.tick)
       else if kind == "shutdown" then some (tt, Gw.Event.shutdown)
       else if kind == "end" then some (tt, Gw.Event.tick)
       else none
@@ -313,7 +315,12 @@ def gatewayCase (hdr : String) (lines : List String) : List String :=
           tits.any fun t => has v.detail s!"tit={t} ").map fun v => { v with sig := "gateway-to-client/" ++ v.sig }) ++
       ((vs01.filter fun v => (v.sig == "wrong-topic-name" || v.sig == "forwarded-undenoted-topic-id") &&
           tits.any fun t => has v.detail s!"tit={t} ").map fun v => { v with sig := "client-to-broker/" ++ v.sig })
-    let ms :=
+    -- cases with a stalled broker are judged on the end of the session alone
+    let noModel := kvOf (words hdr) "nomodel" == some "1"
+    let endOnly :=
+      mon "C13" (Spec.c13 c.cfg tr tEnd) ++
+      mon "C34" ((Spec.c13 c.cfg tr tEnd).map fun v => { v with sig := "session-not-reaped/" ++ v.sig })
+    let ms := if noModel then endOnly else
       mon "C01" vs01 ++ mon "C02" vs02 ++ mon "C05" (routing ["1"]) ++ mon "C32" (routing ["1", "2"]) ++
       mon "C16" (Spec.c16 c.cfg tr) ++ mon "C03" (Spec.c03 c.cfg tr) ++ mon "C04" (Spec.c04 c.cfg tr) ++
       mon "C06" (Spec.c06 c.cfg tr) ++ mon "C07" (Spec.c07 c.cfg tr) ++
@@ -329,6 +336,7 @@ def gatewayCase (hdr : String) (lines : List String) : List String :=
       if s.startsWith "leak" then some s!"MON C13 goroutine-leak case={caseId} t={t} {s.take 300}\nMON C34 session-not-reaped/goroutine-leak case={caseId} t={t} {s.take 300}"
       else if s.startsWith "panic" then some s!"MON C25 panic case={caseId} t={t} {s.take 300}"
       else none
+    if noModel then (basic.filter fun l => !l.startsWith "LEAKPANIC" && !l.startsWith "DIFF") ++ ms ++ leaks else
     (basic.filter fun l => !l.startsWith "LEAKPANIC") ++ projDiffs ++ ms ++ leaks
   | _, _ => basic
 
